@@ -1023,15 +1023,20 @@ def pad(tensor, padding, value=0.0):
                 cores[k], (0, 0, pad[0], pad[1], 0, 0), value=0)
 
         if value != 0:
-            # add the constant on the padded entries only: value * (ones - zero padded ones)
-            one_cores = [tn.ones((1, n, 1), dtype=c.dtype, device=c.device)
-                         for n, c in zip(tensor.N, cores)]
-            for pad, k in zip(reversed(padding), reversed(range(len(tensor.N)))):
-                one_cores[k] = tnf.pad(
-                    one_cores[k], (0, 0, pad[0], pad[1], 0, 0), value=0)
-            outside = torchtt._tt_base.TT([tn.ones_like(c) for c in one_cores]) - \
-                torchtt._tt_base.TT(one_cores)
-            return torchtt._tt_base.TT(cores) + value * outside
+            # add the constant on the padded entries only: value times the indicator of the padded region, which is the
+            # rank 2 TT sum_k inside_1 x ... x inside_{k-1} x outside_k x all_{k+1} x ... x all_d (exact zeros inside)
+            d = len(tensor.N)
+            paddings = ((0, 0),)*(d-len(padding)) + tuple(padding)
+            ind_cores = []
+            for k in range(d):
+                inside = tnf.pad(tn.ones(tensor.N[k], dtype=cores[k].dtype, device=cores[k].device), paddings[k], value=0)
+                core = tn.zeros((2, inside.shape[0], 2), dtype=cores[k].dtype, device=cores[k].device)
+                core[0, :, 0] = inside
+                core[0, :, 1] = 1-inside
+                core[1, :, 1] = 1
+                ind_cores.append(core[(0 if k == 0 else slice(None)), ...][..., (1 if k == d-1 else slice(None))].reshape(
+                    [1 if k == 0 else 2, inside.shape[0], 1 if k == d-1 else 2]))
+            return torchtt._tt_base.TT(cores) + value * torchtt._tt_base.TT(ind_cores)
 
     return torchtt._tt_base.TT(cores)
 
